@@ -1181,7 +1181,9 @@ class DiskTreeTransform(TreeTransformBase):
                 return GitTreeDirectory(
                     file_id, self.final_name(trans_id), parent_id=parent_id
                 ), is_versioned
-            executable = mode_is_executable(st.st_mode)
+            executable = self._new_executability.get(
+                trans_id, mode_is_executable(st.st_mode)
+            )
             object_mode(kind, executable)
             blob = blob_from_path_and_stat(encode_git_path(path), st)
             if kind == "symlink":
@@ -1243,7 +1245,9 @@ class DiskTreeTransform(TreeTransformBase):
             kind = mode_kind(st.st_mode)
             if kind == "directory":
                 return None, None
-            executable = mode_is_executable(st.st_mode)
+            executable = self._new_executability.get(
+                trans_id, mode_is_executable(st.st_mode)
+            )
             mode = object_mode(kind, executable)
             blob = blob_from_path_and_stat(encode_git_path(path), st)
         elif trans_id in self._removed_contents:
@@ -1251,10 +1255,12 @@ class DiskTreeTransform(TreeTransformBase):
         else:
             orig_path = self.tree_path(trans_id)
             kind = self._tree.kind(orig_path)
-            executable = self._tree.is_executable(orig_path)
+            executable = self._new_executability.get(
+                trans_id, self._tree.is_executable(orig_path)
+            )
             mode = object_mode(kind, executable)
             if kind == "symlink":
-                contents = self._tree.get_symlink_target(orig_path)
+                contents = encode_git_path(self._tree.get_symlink_target(orig_path))
             elif kind == "file":
                 contents = self._tree.get_file_text(orig_path)
             elif kind == "directory":
